@@ -25,6 +25,11 @@ FullAlphabet ==
                          "==", "!=", "===", "!==", "&", "^", "|", "&&", "||", "??"} }
   \cup { <<".", ".", TRUE>>, <<"!.", "!.", TRUE>>, <<"(", "(", TRUE>>, <<"Id", "a", TRUE>> }
 
+\* postfix chains: names, member access, calls and commas with and without line breaks (deeper than
+\* the class alphabet reaches)
+PostfixAlphabet ==
+  { T3("Id", "a"), OpT("."), OpT("!."), OpT("("), OpT(")"), <<".", ".", TRUE>>, <<"(", "(", TRUE>> }
+
 \* corners the property leaves open: keyword as member name, f(...) with nothing
 \* before the spread
 Pinned(s) == ~ \E i \in 1..Len(s) :
